@@ -14,6 +14,7 @@ import (
 	"fmt"
 	"math/big"
 	"os"
+	"strings"
 	"time"
 
 	"github.com/bronlabs/bron-crypto/pkg/base/curves/k256"
@@ -88,7 +89,12 @@ func (h *harness) cggmp21(keys map[string]*paillier.SecretKey, primes map[string
 	n0sk, n1sk := keys["general"], keys["blum"]
 	n0, n1 := n0sk.Public(), n1sk.Public()
 	var rp *intcom.CommitmentKey
-	if p := vh.Safely(func() { rp = ringPedersenKey(primes["safe"][0], primes["safe"][1], r) }); p != "" {
+	// affg and encelg demand a ring-Pedersen modulus of base.IFCKeyLength (3072) bits
+	rpPrimes, ok := primes["safe3072"]
+	if !ok {
+		rpPrimes = primes["safe"]
+	}
+	if p := vh.Safely(func() { rp = ringPedersenKey(rpPrimes[0], rpPrimes[1], r) }); p != "" {
 		h.res.Note("CGGMP21 proofs skipped: ring-Pedersen key: %s", trunc(p, 300))
 		return
 	}
@@ -98,6 +104,9 @@ func (h *harness) cggmp21(keys map[string]*paillier.SecretKey, primes map[string
 		return must(sf.FromBytesBEReduce(m.Bytes()))
 	}
 	guard := func(name string, f func()) {
+		if only := os.Getenv("C08_CG"); only != "" && !strings.Contains(","+only+",", ","+name+",") {
+			return
+		}
 		if p := vh.Safely(f); p != "" {
 			h.res.Note("cggmp21/%s not exercised (setup failed): %s", name, trunc(p, 300))
 		}
@@ -244,6 +253,7 @@ func (h *harness) cggmp21(keys map[string]*paillier.SecretKey, primes map[string
 			panic(err)
 		}
 		c := mkCase("cggmp21-affgstar/paillier2048", proto, rec, x, w, x2, 16)
+		c.heavy = true
 		h.runLight(c, r, simCheck(func(e []byte) error {
 			a, z, err := proto.RunSimulator(x, e)
 			if err != nil {
@@ -275,6 +285,7 @@ func (h *harness) cggmp21(keys map[string]*paillier.SecretKey, primes map[string
 			panic(err)
 		}
 		c := mkCase("cggmp21-dec/paillier2048", proto, rec, x, w, x2, 16)
+		c.heavy = true
 		h.runLight(c, r, simCheck(func(e []byte) error {
 			a, z, err := proto.RunSimulator(x, e)
 			if err != nil {
